@@ -12,7 +12,7 @@ from wormhole._wordlist import PGPWordList
 
 PROP = "C19"
 LEVEL = "exploration"
-QUICK_S = 35
+QUICK_S = 50
 THOROUGH_S = 600
 TECHNIQUE = ("deterministic simulation with the os.urandom seam owned: "
              "exhaustive byte->word map through the seam, generated malformed "
